@@ -23,6 +23,7 @@ import (
 	"encoding/hex"
 	"encoding/json"
 	"fmt"
+	"io"
 	"math"
 	"math/rand"
 	"os"
@@ -440,6 +441,9 @@ type c09Event struct {
 	BndEnc  bool     `json:"bndenc"` // the bound travels in the encoding (so it must come back bit for bit)
 	Bfp0    string   `json:"bfp0"`   // bounds + subregion bounds of the loops whose bound travels in the encoding, before / after
 	Bfp1    string   `json:"bfp1"`
+	TRef    string   `json:"tref"` // what decoding the encoding from a bytes.Reader gives (hash of value and re-encoding)
+	TSig    []string `json:"tsig"` // the same through each transport (plain reader / pieces of the given lengths)
+	TName   []string `json:"tname"`
 	AltB0   []string `json:"altb0"` // the same for each forced polygon format
 	AltB1   []string `json:"altb1"`
 	AltFp   []string `json:"altfp"` // fingerprints / answers after a round trip through each forced polygon format
@@ -908,6 +912,34 @@ func c09Gen(kind string, seed int64, idx int) c09Value {
 			return c09Value{"Loop", kind, l}
 		}
 		return c09Value{"Loop", kind, s2.LoopFromCell(s2.CellFromCellID(s2.CellFromPoint(randPoint()).ID().Parent(rnd.Intn(31))))}
+	case "long-stream": // encodings longer than one and two 4096-byte I/O buffers: 200-600 vertices that are no cell centres
+		n := 200 + rnd.Intn(401)
+		switch idx % 4 {
+		case 0:
+			pl := make(s2.Polyline, n)
+			for i := range pl {
+				pl[i] = randPoint()
+			}
+			return c09Value{"Polyline", kind, &pl}
+		case 1:
+			return c09Value{"Loop", kind, s2.RegularLoop(randPoint(), s1.Angle(0.05+rnd.Float64()), n)}
+		case 2: // W2 cell-vertex ring: the lossless polygon format
+			L := 8 + rnd.Intn(8)
+			side := n / 4
+			i0, j0, i1, j1 := window(L, side, side, false)
+			return c09Value{"Polygon", kind, mkPolygon(cornerRing(face, L, i0, j0, i1, j1, 1))}
+		}
+		// compressed format with a long off-centre list (a third of the vertices are no centres)
+		L := 10 + rnd.Intn(18)
+		side := n / 4
+		i0, j0, i1, j1 := window(L, side, side, false)
+		pts := centreRing(face, L, i0, j0, i1, j1, 1)
+		for k := range pts {
+			if k%3 == 0 {
+				pts[k].X = math.Nextafter(pts[k].X, 2)
+			}
+		}
+		return c09Value{"Polygon", kind, mkPolygon(pts)}
 	case "polyline":
 		n := []int{0, 1, 2, 3, 17, 100}[rnd.Intn(6)]
 		pl := make(s2.Polyline, n)
@@ -999,6 +1031,136 @@ func c09Gen(kind string, seed int64, idx int) c09Value {
 	panic("unknown roundtrip kind " + kind)
 }
 
+// c09Pieces is a reader that delivers its data in pieces of the given lengths (cyclically); it has
+// no ReadByte, so Decode puts a bufio.Reader in front of it.
+type c09Pieces struct {
+	data []byte
+	pat  []int
+	pos  int
+	k    int
+}
+
+func (p *c09Pieces) Read(b []byte) (int, error) {
+	if p.pos >= len(p.data) {
+		return 0, io.EOF
+	}
+	n := p.pat[p.k%len(p.pat)]
+	p.k++
+	if n > len(b) {
+		n = len(b)
+	}
+	if n > len(p.data)-p.pos {
+		n = len(p.data) - p.pos
+	}
+	copy(b, p.data[p.pos:p.pos+n])
+	p.pos += n
+	return n, nil
+}
+
+// c09PiecesByte is the same stream presented as an io.ByteReader: the decoder reads it directly.
+type c09PiecesByte struct{ c09Pieces }
+
+func (p *c09PiecesByte) ReadByte() (byte, error) {
+	if p.pos >= len(p.data) {
+		return 0, io.EOF
+	}
+	p.pos++
+	return p.data[p.pos-1], nil
+}
+
+func c09EncodeAny(val any) ([]byte, error) {
+	var buf bytes.Buffer
+	var err error
+	switch x := val.(type) {
+	case *s2.Polygon:
+		err = x.Encode(&buf)
+	case *s2.Loop:
+		err = x.Encode(&buf)
+	case *s2.Polyline:
+		err = x.Encode(&buf)
+	case *s2.CellUnion:
+		err = x.Encode(&buf)
+	case s2.Point:
+		err = x.Encode(&buf)
+	case s2.Cap:
+		err = x.Encode(&buf)
+	case s2.Rect:
+		err = x.Encode(&buf)
+	case s2.CellID:
+		err = x.Encode(&buf)
+	case s2.Cell:
+		err = x.Encode(&buf)
+	default:
+		panic(fmt.Sprintf("c09EncodeAny: %T", val))
+	}
+	return buf.Bytes(), err
+}
+
+// c09DecodeSig decodes a value of the given type from r and returns a signature of the outcome:
+// "ERR" or the hash of the value's stored state together with the hash of its re-encoding.
+func c09DecodeSig(typ string, r io.Reader) string {
+	var d c09Dump
+	var val any
+	var err error
+	switch typ {
+	case "Polygon":
+		q := new(s2.Polygon)
+		if err = q.Decode(r); err == nil {
+			c09PolygonFp(&d, q)
+			d.WriteString(c09BoundFp(q, true))
+		}
+		val = q
+	case "Loop":
+		q := new(s2.Loop)
+		if err = q.Decode(r); err == nil {
+			c09LoopFp(&d, q)
+		}
+		val = q
+	case "Polyline":
+		q := new(s2.Polyline)
+		if err = q.Decode(r); err == nil {
+			for _, v := range *q {
+				d.pt(v)
+			}
+		}
+		val = q
+	case "CellUnion":
+		q := new(s2.CellUnion)
+		err = q.Decode(r)
+		val = q
+	case "Point":
+		var q s2.Point
+		err = q.Decode(r)
+		val = q
+	case "Cap":
+		var q s2.Cap
+		err = q.Decode(r)
+		val = q
+	case "Rect":
+		var q s2.Rect
+		err = q.Decode(r)
+		val = q
+	case "CellID":
+		var q s2.CellID
+		err = q.Decode(r)
+		val = q
+	case "Cell":
+		var q s2.Cell
+		err = q.Decode(r)
+		val = q
+	default:
+		panic("c09DecodeSig: " + typ)
+	}
+	if err != nil {
+		return "ERR"
+	}
+	enc, err := c09EncodeAny(val)
+	if err != nil {
+		return "ERR(re-encode)"
+	}
+	return c09Hash(d.Bytes()) + "/" + c09Hash(enc)
+}
+
 var c09TraceMu sync.Mutex
 
 func opRoundTrip(raw json.RawMessage, o *Out) {
@@ -1007,6 +1169,10 @@ func opRoundTrip(raw json.RawMessage, o *Out) {
 		Seed int64  `json:"seed"`
 		I    int    `json:"i"`
 		Tr   int    `json:"tr"`
+		Tp   []struct {
+			Mode string `json:"mode"`
+			Pat  []int  `json:"pat"`
+		} `json:"tp"`
 	}
 	if err := json.Unmarshal(raw, &c); err != nil {
 		panic(err)
@@ -1014,6 +1180,30 @@ func opRoundTrip(raw json.RawMessage, o *Out) {
 	v := c09Gen(c.Kind, c.Seed, c.I)
 	ev := c09Observe(v)
 	ev.Tr = c.Tr
+	// transports: the same encoding must decode to the same value however the reader delivers it
+	if enc, err := c09EncodeAny(v.val); err == nil && ev.Err == "" {
+		ev.TRef = c09DecodeSig(v.typ, bytes.NewReader(enc))
+		for _, t := range c.Tp {
+			var r io.Reader
+			switch t.Mode {
+			case "plain":
+				r = &c09Pieces{data: enc, pat: t.Pat}
+			case "byte":
+				r = &c09PiecesByte{c09Pieces{data: enc, pat: t.Pat}}
+			default:
+				panic("unknown transport mode " + t.Mode)
+			}
+			ev.TName = append(ev.TName, fmt.Sprintf("%s%v", t.Mode, t.Pat))
+			ev.TSig = append(ev.TSig, c09DecodeSig(v.typ, r))
+		}
+		if len(enc) > 4096 {
+			o.Count("transport_encodings_longer_than_4KB")
+		}
+		if len(enc) > 8192 {
+			o.Count("transport_encodings_longer_than_8KB")
+		}
+		o.CountN("transport_decodes", len(c.Tp))
+	}
 	o.Count("roundtrip_" + v.typ)
 	o.Count("roundtrip_fmt_" + ev.Fmt)
 	o.nontrivial = true
@@ -1042,6 +1232,16 @@ func opRoundTrip(raw json.RawMessage, o *Out) {
 			o.Fail(k+"bound", "%s: encoded bound / floats differ after the round trip: %v vs %v", in, ev.Keys0, ev.Keys1)
 		} else if fmt.Sprint(ev.Keys0) != fmt.Sprint(ev.Keys1) {
 			o.Count("recomputed_bound_differs_from_original")
+		}
+		for i := range ev.TSig {
+			if ev.TSig[i] != ev.TRef {
+				mode := "plain"
+				if len(ev.TName[i]) > 4 && ev.TName[i][:4] == "byte" {
+					mode = "byte"
+				}
+				o.Fail("roundtrip/"+v.typ+"/transport/"+mode, "%s: decoding the same encoding through transport %s gives %s, from a bytes.Reader %s",
+					in, ev.TName[i], ev.TSig[i], ev.TRef)
+			}
 		}
 		if ev.Bfp0 != ev.Bfp1 {
 			o.Fail(k+"stored-bound", "%s: a loop bound that travels in the encoding (or the subregion bound derived from it) differs after the round trip", in)
@@ -1116,7 +1316,7 @@ type c09Codec struct {
 
 // c09Observe performs the round trip and records what was seen (no judgement here).
 func c09Observe(v c09Value) (ev c09Event) {
-	ev = c09Event{Ev: "RoundTrip", Type: v.typ, Kind: v.kind, Fmt: "-", AltFp: []string{}, AltAns: []string{}, AltName: []string{}, AltB0: []string{}, AltB1: []string{}, Keys0: [][3]int{}, Keys1: [][3]int{}}
+	ev = c09Event{Ev: "RoundTrip", Type: v.typ, Kind: v.kind, Fmt: "-", AltFp: []string{}, AltAns: []string{}, AltName: []string{}, AltB0: []string{}, AltB1: []string{}, TSig: []string{}, TName: []string{}, Keys0: [][3]int{}, Keys1: [][3]int{}}
 	fail := func(format string, a ...any) c09Event {
 		ev.Err = fmt.Sprintf(format, a...)
 		return ev
